@@ -217,6 +217,31 @@ pub fn c17(ctx: &Ctx) {
         if q { 1200 } else { 30_000 },
         w,
     );
+    // the same histories with transient outages of the marker file (its temporary file cannot be
+    // created for a while; the outage always ends before the instance is shut down): what was
+    // acknowledged during the outage must still be what the next lifetime reports
+    let mix2 = Mix { append: 10, batch: 3, batch_many: 0, read_next: 2, batch_read: 1, peek: 0, stateless: 0, count: 0, reopen: 10, clock: 0, reject: 0, marks: 30, max_batch: 4 };
+    e1_search(
+        ctx,
+        "marker-outage",
+        move || {
+            (case_strategy(mix2.clone(), SizeProfile::Tiny, 6..40, 3, mode_strategy()), proptest::collection::vec((any::<u16>(), any::<bool>()), 1..6))
+                .prop_map(|(mut c, toggles)| {
+                    for (pos, on) in toggles {
+                        let at = (pos as usize * (c.ops.len() + 1)) >> 16;
+                        c.ops.insert(at, AbsOp::MarkerOutage { on });
+                    }
+                    c
+                })
+                .boxed()
+        },
+        opts.clone(),
+        enabled.clone(),
+        |f| has(f, "marker_changed_during_outage") && has(f, "reopen_after_marker_change"),
+        false,
+        if q { 400 } else { 10_000 },
+        w,
+    );
 }
 
 // ------------------------------------------------------------------------------------------ C16
